@@ -28,6 +28,7 @@ import errno
 import io
 import os
 import sys
+import shutil
 import threading
 
 from fsspec import AbstractFileSystem
@@ -47,6 +48,7 @@ APPLICABLE = {
     "ENOENT": None,         # every op: the property enumerates FileNotFoundError at every call
     "AFTER": EFFECT_OPS,
     "TORN": WRITE_OPS,
+    "HALF": {"mv"},         # a move that is copy + delete (object stores): copied, not deleted
     "ENOSPC": {"write", "makedirs", "mkdir", "open-w"},
     "VIS": CREATE_OPS,
     "DEL": REMOVE_OPS,
@@ -265,6 +267,19 @@ class SimFS(AbstractFileSystem):
                 st.fire("TORN")
                 torn()
                 raise OSError(errno.EIO, f"injected torn write at op {k} {op} {rel}")
+        if kind == "HALF" and path2 is not None and os.path.exists(p):
+            # fsspec's generic mv is copy + rm: the copy is done, the delete is not
+            st.fire("HALF")
+            tgt = st.check(self._strip_protocol(path2))
+            if os.path.isdir(p):
+                shutil.copytree(p, tgt, dirs_exist_ok=True)
+            else:
+                shutil.copy2(p, tgt)
+            if tgt in st.recent_created:
+                st.recent_created.remove(tgt)
+            st.recent_created.append(tgt)
+            raise OSError(errno.EIO, f"injected: move failed between copy and delete at op {k} "
+                                     f"{op} {rel}")
         if kind == "STALE":
             st.fire("STALE")
             st.stale_now = True
